@@ -379,12 +379,19 @@ PREPARERS = {
     "kids": lambda v: v, "pairs": lambda v: v, "units": lambda v: v, "parts": lambda v: v, "links": lambda v: v, "marks": lambda v: v,
     "any": lambda v: v,
 }
+def _prep_chain(v):
+    """NOT idempotent (7 -> 8 -> 9): preparing a stored element a second time is visible"""
+    if type(v) is int:
+        return {7: 8, 8: 9, -1: "bad"}.get(v, v)
+    return v
+
+
 ITEM_PREPARERS = {
-    "nums": _prep_scalar(7, 8, -1, "bad"),
+    "nums": _prep_chain,
     "lits": lambda v: v, "grids": lambda v: v,
     "words": _prep_scalar("a", "A", "zz", 5),
-    "scores": _prep_scalar(7, 8, -1, "bad"),
-    "tags": _prep_scalar(7, 8, -1, "bad"),
+    "scores": _prep_chain,
+    "tags": _prep_chain,
     "labels": _prep_scalar("a", "A", "zz", 5),
     "kids": lambda v: _prep_nested(v), "pairs": lambda v: _prep_nested(v), "units": lambda v: _prep_nested(v),
     "parts": lambda v: _prep_nested(v), "links": lambda v: _prep_nested(v), "marks": lambda v: _prep_nested(v),
